@@ -222,7 +222,19 @@ func (e *Engine) havocForLoop(st *State, W *writeSet, ctx *LoopCtx, li *loopInfo
 		all[k] = true
 	}
 	for _, cl := range sortedKeys(all) {
-		s := e.classSorts[cl]
+		s, known := e.classSorts[cl]
+		if !known {
+			continue
+		}
+		if s == SInt || s == SBool {
+			// a scalar global: kept under an explicit modifies clause (which cannot name it), arbitrary otherwise
+			if hasMod {
+				st.Heap[cl] = e.heapIn(ctx.EntryHeap, cl)
+			} else {
+				e.setH(st, cl, tb.Fresh("lh_"+cl, s))
+			}
+			continue
+		}
 		if !W.Classes[cl] && !hasMod {
 			// written only at objects allocated inside the body: objects existing at loop entry keep their contents
 			h := e.heapIn(ctx.EntryHeap, cl)
@@ -359,6 +371,9 @@ func (e *Engine) loopSpecCtx(st *State, ctx *LoopCtx) *specCtx {
 		if i < len(fr.Params) {
 			env[names[i]] = specBind{fr.Params[i], typs[i]}
 		}
+	}
+	if len(names) <= len(fr.Params) {
+		addPositional(env, names, sig, "arg")
 	}
 	if len(st.Frames) > 1 && e.isInlinedLoopOverride(fr, ctx) {
 		// invariants the function under verification supplies for a loop of an inlined callee may also name its own parameters
